@@ -180,6 +180,18 @@ std::unique_ptr<trompeloeil::expectation> vp_build_plain(vp_M& m)
 {
   return NAMED_REQUIRE_CALL(m, f(trompeloeil::_)).RETURN(0);
 }
+std::unique_ptr<trompeloeil::expectation> vp_build_at_most(vp_M& m)
+{
+  return NAMED_REQUIRE_CALL(m, f(trompeloeil::_)).TIMES(AT_MOST(3)).RETURN(0);
+}
+std::unique_ptr<trompeloeil::expectation> vp_build_at_least(vp_M& m)
+{
+  return NAMED_REQUIRE_CALL(m, f(trompeloeil::_)).TIMES(AT_LEAST(2)).RETURN(0);
+}
+std::unique_ptr<trompeloeil::expectation> vp_build_allow(vp_M& m)
+{
+  return NAMED_ALLOW_CALL(m, f(trompeloeil::_)).RETURN(0);
+}
 std::unique_ptr<trompeloeil::expectation> vp_build_forbid(vp_M& m)
 {
   return NAMED_FORBID_CALL(m, f(trompeloeil::_));
